@@ -1963,8 +1963,15 @@ size_t rtosc_scan_arg_val(const char* src,
                       ? arg-1
                       : arg-1; // normal case
 
+        // an array in front of lhs is no number to count on from
+        // (its last element lies in arg[-1], so find the argument's start)
+        bool llhs_is_array = false;
+        for(const rtosc_arg_val_t* prev = arg - args_before; prev < arg;
+            prev += next_arg_offset(prev))
+            llhs_is_array = (prev->type == 'a');
+
         bool llhsarg_is_useless =
-            (args_before < 1 ||
+            (args_before < 1 || llhs_is_array ||
             lhsarg.type == '-' || !types_match(llhsarg->type, lhsarg.type)
             /* this includes llhsarg == '-' */
             || !rtosc_arg_vals_cmp_single(llhsarg, &lhsarg, NULL));
